@@ -120,7 +120,7 @@ def _atoms_if_plain(elems):
             if s is None or s[2] <= 0:
                 return None
             a = s[1]
-            if isinstance(a, tuple) and a and (a[0] in COMPUTED_TAGS or a[0] in ("lapack", "uninit", "hv", "cfg")
+            if isinstance(a, tuple) and a and (a[0] in COMPUTED_TAGS or a[0] in ("lapack", "uninit", "hv", "cfg", "tq")
                                                or (isinstance(a[0], str) and a[0].startswith("rnd"))):
                 return None          # a derived quantity (norm, LAPACK output, random draw ...) cannot be made zero by specialising inputs
             out.add(a)
